@@ -99,7 +99,9 @@ impl HttpRangeRequest {
                     Err(err) => return Poll::Ready(Some(Err(HttpReaderError::from(err)))),
                 },
                 RequestState::Stream(stream) => match ready!(stream.poll_next_unpin(cx)) {
-                    Some(Ok(item)) => {
+                    Some(Ok(mut item)) => {
+                        // Never hand out more than what was asked for.
+                        item.truncate(usize::try_from(self.size).unwrap_or(usize::MAX));
                         self.offset += item.len() as u64;
                         self.size -= item.len() as u64;
                         return Poll::Ready(Some(Ok(item)));
